@@ -1,4 +1,4 @@
 SPECIFICATION Spec
 CONSTANTS
   MaxT = 3
-INVARIANTS ZeroLength DenseIffRequested NoUnreachableFirstOutput
+INVARIANTS CoversStored ZeroLength DenseIffRequested NoUnreachableFirstOutput
